@@ -16,7 +16,7 @@ from typing import Any, Iterable
 
 from .prog import AnalysisError, unparse
 
-SAFE = {"type": type, "dict": dict, "tuple": tuple, "enumerate": enumerate, "zip": zip, "int": int, "float": float,
+SAFE = {"getattr": getattr, "hasattr": hasattr, "type": type, "dict": dict, "tuple": tuple, "enumerate": enumerate, "zip": zip, "int": int, "float": float,
         "any": any, "all": all, "isinstance": isinstance, "len": len, "str": str, "bool": bool, "frozenset": frozenset,
         "set": set, "list": list, "sorted": sorted, "None": None, "True": True, "False": False}
 
